@@ -58,13 +58,17 @@ Ltac simp_state :=
        set_wlock set_closed set_misaligned bump_id upd_thread add_answered fid fown
        misaligned nsend wire closed knd seqn reached] in *.
 
-Lemma OwnInv_step : forall s l s', Inv s -> OwnInv s -> step s l = Some s' -> OwnInv s'.
+(* one step preserves "every call past its header holds its own frame", given that in the
+   pre-state a peeking call whose id equals the id of a frame on the wire is that frame's owner *)
+Lemma own_step_gen : forall s l s', Inv s ->
+  (misaligned s = false -> forall t, holds_own s t) -> step s l = Some s' ->
+  (forall t f, ph (thr s t) = Peeking -> In f (wire s) -> fid f = rid (thr s t) -> fown f = t) ->
+  misaligned s' = false -> forall t, holds_own s' t.
 Proof.
-  intros s l s' Iv O H M' B' u.
+  intros s l s' Iv O H Dist M' u.
   assert (M : misaligned s = false).
   { destruct (misaligned s) eqn:E; [|reflexivity]. rewrite (misaligned_mono s l s' H E) in M'. discriminate. }
-  assert (B : nsend s < ID_BOUND) by (pose proof (nsend_mono s l s' H); lia).
-  pose proof (O M B u) as Hu.
+  pose proof (O M u) as Hu.
   destruct l; step_inv H;
     try (eapply holds_own_keep; [exact Hu|reflexivity|intros f0 Hf0; exact Hf0]; fail);
     try (cbn in M'; discriminate);
@@ -83,13 +87,23 @@ Proof.
   (* PeekOwn by u itself: the head frame is the one produced for u *)
   exists f. apply andb_prop in Heqb. destruct Heqb as [_ Ef]. apply Z.eqb_eq in Ef.
   repeat split; auto.
-  - assert (Hf : In f (consumed s ++ wire s)) by (apply in_or_app; right; rewrite Heql; left; reflexivity).
-    destruct (i_frames s Iv f Hf) as [R [Ei _]].
+  - apply Dist; [exact Heqp|try rewrite Heql; left; reflexivity|exact Ef].
+  - apply in_or_app. right. left. reflexivity.
+Qed.
+
+Lemma OwnInv_step : forall s l s', Inv s -> OwnInv s -> step s l = Some s' -> OwnInv s'.
+Proof.
+  intros s l s' Iv O H M' B'.
+  assert (B : nsend s < ID_BOUND) by (pose proof (nsend_mono s l s' H); lia).
+  eapply (own_step_gen s l s' Iv); [|exact H| |exact M'].
+  - intros M. apply O; assumption.
+  - intros t f Pt Hf Ef.
+    assert (Hf' : In f (consumed s ++ wire s)) by (apply in_or_app; right; exact Hf).
+    destruct (i_frames s Iv f Hf') as [R [Ei _]].
     apply (ids_distinct s); auto.
     + apply presend_false_of_reached; auto.
-    + unfold thr. rewrite Heqp. reflexivity.
-    + unfold thr in *. congruence.
-  - apply in_or_app. right. left. reflexivity.
+    + rewrite Pt. reflexivity.
+    + congruence.
 Qed.
 
 Lemma Own_run : forall ls s, run init ls = Some s -> Inv s /\ OwnInv s.
@@ -123,8 +137,8 @@ Qed.
 (* ---- a call that gives up leaves the connection closed ---- *)
 Definition abandon_closed (s : state) (t : tid) : Prop :=
   match ph (thr s t) with
-  | Failed EWrite | Failed EPeek => closed s = true
-  | Failed ERead => knd (thr s t) <> KApiVersions -> closed s = true
+  | Failed ENoProgress => True
+  | Failed _ => closed s = true
   | _ => True
   end.
 
@@ -139,9 +153,8 @@ Proof.
       [apply Nat.eqb_eq in E; subst|apply Nat.eqb_neq in E] end;
     simp_state; auto;
     try (match type of Hu with context [ph ?x] => destruct (ph x) as [| | | | | | | |[]] end; auto; fail);
-    try (intros Hk; match goal with Hk' : knd _ = _ |- _ => rewrite Hk' in *; cbn in *; congruence end);
-    try (intros Hk; match goal with Hc : closes_on_fatal ?k = false |- _ =>
-           destruct k; cbn in Hc; congruence end).
+    try (match goal with Hc : closes_on_fatal ?k = false |- _ =>
+           destruct k; cbn in Hc; discriminate end).
 Qed.
 
 Lemma conn_abandon_closes : forall ls s, run init ls = Some s -> forall t, abandon_closed s t.
@@ -184,55 +197,112 @@ Proof.
   - repeat split; auto.
 Qed.
 
-(* ---- refutation witnesses (Conn.ApiVersions does not close on a body read error) ---- *)
-Definition C06_conn_abandon_closes_full_statement : Prop :=
-  forall ls s, run init ls = Some s ->
-  forall t e, ph (thr s t) = Failed e -> e <> ENoProgress -> closed s = true.
 
-Definition apiversions_witness : list label :=
-  [Enter 1 KApiVersions; LockW 1; Send 1 true true; Arrive 1; LockR 1; PeekOwn 1;
-   Deadline 1;                                   (* time-out in the middle of the body *)
-   Enter 2 KDo; LockW 2; Send 2 true true; LockR 2;
-   PeekGarbage 2;                                (* the left-over bytes carry id 2 *)
-   ReadDone 2 ROk]%nat.
+(* ---- the windowed form: no bound on the number of requests a connection carries, only on
+   how far apart (in send order) two OUTSTANDING requests are ---- *)
+Definition outstanding (s : state) (t : tid) : Prop :=
+  ph (thr s t) = Waiting \/ ph (thr s t) = Peeking \/ exists f, In f (wire s) /\ fown f = t.
 
+Definition window (s : state) : Prop :=
+  forall t u, outstanding s t -> outstanding s u ->
+    - ID_BOUND < seqn (thr s t) - seqn (thr s u) < ID_BOUND.
 
-Lemma run_witness : forall ls (P : state -> bool),
-  match run init ls with Some s => P s | None => false end = true ->
-  exists s, run init ls = Some s /\ P s = true.
-Proof. intros ls P H. destruct (run init ls) as [s|]; [exists s; auto|discriminate]. Qed.
+(* W holds in every state the run visits (including the first and the last) *)
+Fixpoint run_within (W : state -> Prop) (s : state) (ls : list label) {struct ls} : Prop :=
+  W s /\
+  match ls with
+  | [] => True
+  | l :: ls' => match step s l with Some s' => run_within W s' ls' | None => True end
+  end.
 
-Lemma apiversions_abandon_witness :
-  exists ls s t, run init ls = Some s /\ ph (thr s t) = Failed ERead /\ closed s = false /\
-                 misaligned s = true.
+Lemma inv_run_within : forall (W P : state -> Prop),
+  (forall s l s', W s -> P s -> step s l = Some s' -> P s') ->
+  forall ls s s', P s -> run s ls = Some s' -> run_within W s ls -> P s' /\ W s'.
 Proof.
-  exists (firstn 7 apiversions_witness).
-  destruct (run_witness (firstn 7 apiversions_witness)
-    (fun s => match ph (thr s 1%nat) with Failed ERead => negb (closed s) && misaligned s | _ => false end))
-    as [s [R P]]; [vm_compute; reflexivity|].
-  exists s, 1%nat. split; [exact R|].
-  destruct (ph (thr s 1%nat)) as [| | | | | | | |[]]; try discriminate.
-  apply andb_prop in P. destruct P as [P1 P2]. repeat split; auto.
-  destruct (closed s); [discriminate|reflexivity].
+  intros W P Hstep. induction ls as [|l ls IH]; intros s s' Ps Hr Hw; simpl in *.
+  - inversion Hr; subst. split; [exact Ps|exact (proj1 Hw)].
+  - destruct Hw as [Ws Hw]. destruct (step s l) as [s1|] eqn:E; [|discriminate].
+    eapply IH; [|exact Hr|exact Hw]. eapply Hstep; eauto.
 Qed.
 
-Lemma abandon_full_refuted : ~ C06_conn_abandon_closes_full_statement.
+Lemma outstanding_presend : forall s t, Inv s -> outstanding s t -> presend (ph (thr s t)) = false.
 Proof.
-  intros H. destruct apiversions_abandon_witness as [ls [s [t [R [P [C M]]]]]].
-  rewrite (H ls s R t ERead P) in C; discriminate.
+  intros s t I [H|[H|[f [Hf Ho]]]]; try (rewrite H; reflexivity).
+  assert (Hf' : In f (consumed s ++ wire s)) by (apply in_or_app; right; exact Hf).
+  destruct (i_frames s I f Hf') as [R _]. rewrite Ho in R. apply presend_false_of_reached; auto.
 Qed.
 
-Lemma stale_delivery_witness :
-  exists ls s t, run init ls = Some s /\ ph (thr s t) = Done ROk /\ got (thr s t) = None /\
-                 closed s = false.
+Lemma ids_distinct_window : forall s t u, Inv s -> window s ->
+  outstanding s t -> outstanding s u -> rid (thr s t) = rid (thr s u) -> t = u.
 Proof.
-  exists apiversions_witness.
-  destruct (run_witness apiversions_witness
-    (fun s => match ph (thr s 2%nat), got (thr s 2%nat) with
-              | Done ROk, None => negb (closed s) | _, _ => false end))
-    as [s [R P]]; [vm_compute; reflexivity|].
-  exists s, 2%nat. split; [exact R|].
-  destruct (ph (thr s 2%nat)) as [| | | | | | |[]|]; try discriminate.
-  destruct (got (thr s 2%nat)); try discriminate.
-  repeat split; auto. destruct (closed s); [discriminate|reflexivity].
+  intros s t u I W Ot Ou E.
+  pose proof (outstanding_presend s t I Ot) as Pt. pose proof (outstanding_presend s u I Ou) as Pu.
+  destruct (i_post s I t Pt) as [_ Rt]. destruct (i_post s I u Pu) as [_ Ru].
+  apply (i_inj s I t u Pt Pu). apply wrap32_inj; [congruence|].
+  pose proof (W t u Ot Ou) as X. unfold ID_BOUND in X. lia.
+Qed.
+
+Definition OwnW (s : state) : Prop := misaligned s = false -> forall t, holds_own s t.
+
+Lemma OwnW_step : forall s l s', window s -> Inv s /\ OwnW s -> step s l = Some s' -> Inv s' /\ OwnW s'.
+Proof.
+  intros s l s' W [Iv O] H. split; [eapply Inv_step; eauto|].
+  intros M'. eapply (own_step_gen s l s' Iv O H); [|exact M'].
+  intros t f Pt Hf Ef.
+  assert (Hf' : In f (consumed s ++ wire s)) by (apply in_or_app; right; exact Hf).
+  destruct (i_frames s Iv f Hf') as [_ [Ei _]].
+  apply (ids_distinct_window s); auto.
+  - right. right. exists f. split; auto.
+  - right. left. exact Pt.
+  - congruence.
+Qed.
+
+Lemma conn_own_response_windowed : forall ls s,
+  run init ls = Some s -> run_within window init ls -> aligned s ->
+  (forall t, completed (ph (thr s t)) ->
+     exists f, got (thr s t) = Some f /\ fid f = rid (thr s t) /\ fown f = t /\
+               In f (consumed s) /\ In t (answered s)) /\
+  NoDup (map fown (consumed s)) /\
+  (forall t u, outstanding s t -> outstanding s u -> t <> u -> rid (thr s t) <> rid (thr s u)).
+Proof.
+  intros ls s H Hw A.
+  destruct (inv_run_within window (fun x => Inv x /\ OwnW x)
+              (fun x l x' Wx Px St => OwnW_step x l x' Wx Px St) ls init s
+              (conj Inv_init (fun _ t => OwnInv_init eq_refl ltac:(unfold ID_BOUND; cbn; lia) t)) H Hw)
+    as [[I O] W].
+  repeat split.
+  - intros t C. pose proof (O A t) as Ht. unfold holds_own in Ht.
+    destruct (ph (thr s t)); try contradiction;
+      destruct Ht as [f [G [E [F D]]]]; exists f; repeat split; auto;
+      (destruct (i_frames s I f (in_or_app _ _ _ (or_introl D))) as [_ [_ X]]; rewrite F in X; exact X).
+  - pose proof (i_nodup s I) as N. rewrite map_app in N. eapply NoDup_app_l; exact N.
+  - intros t u Ot Ou Ne E. apply Ne. eapply ids_distinct_window; eauto.
+Qed.
+
+(* the total bound implies the window in every visited state: the windowed theorem subsumes
+   the bounded one, and its hypothesis is satisfiable by every run below the bound *)
+Lemma window_of_bound : forall s, Inv s -> nsend s < ID_BOUND -> window s.
+Proof.
+  intros s I B t u Ot Ou.
+  destruct (i_post s I t (outstanding_presend s t I Ot)) as [Xt _].
+  destruct (i_post s I u (outstanding_presend s u I Ou)) as [Xu _]. lia.
+Qed.
+
+Lemma nsend_run_mono : forall ls s s', run s ls = Some s' -> nsend s <= nsend s'.
+Proof.
+  induction ls as [|l ls IH]; intros s s' H; simpl in H.
+  - inversion H; subst. lia.
+  - destruct (step s l) as [s1|] eqn:E; [|discriminate].
+    pose proof (nsend_mono s l s1 E). pose proof (IH s1 s' H). lia.
+Qed.
+
+Lemma run_within_of_bound : forall ls s s', Inv s -> run s ls = Some s' -> nsend s' < ID_BOUND ->
+  run_within window s ls.
+Proof.
+  induction ls as [|l ls IH]; intros s s' I H B; simpl in *.
+  - inversion H; subst. split; [apply window_of_bound; auto|exact Logic.I].
+  - pose proof (nsend_run_mono (l :: ls) s s' H) as Mn.
+    split; [apply window_of_bound; auto; lia|].
+    destruct (step s l) as [s1|] eqn:E; [|discriminate].
+    eapply IH; eauto. eapply Inv_step; eauto.
 Qed.
